@@ -1,5 +1,6 @@
 import StoneVerif.Model.IrCheck
 import StoneVerif.Lemmas.IrCheck
+import StoneVerif.Lemmas.IrCheckExamplesEnc
 /-! Property theorems for C10 (accepted defaults and computed examples are valid for the generated classes).
 
 `Model/IrCheck.lean` is the compile-time side (`_create_struct_field`, `_populate_field_defaults`,
@@ -265,5 +266,130 @@ example : getField exEnv (.struct "ns.S" []) "f" = .ok (.union "ns.Color" "red" 
     (setField exE exEnv (.struct "ns.S" []) "f" (.union "ns.Color" "red" .none)).bind (getField exEnv · "f")
       = .ok (.union "ns.Color" "red" .none) :=
   ⟨rfl, rfl, rfl⟩
+
+/-! ## 6. computed examples decode strictly and encode back
+
+Full statement (FALSE today, witnesses in the suites: D12 pattern prefix, D13 Bytes that is not base64,
+non-canonical Timestamp / Bytes text, `true` for an integer, an integer that is not a float, a struct member
+of a union reached through an alias, an embedded catch-all tag):
+
+    theorem example_roundtrip (h : compile fs = .ok api) (hex : ex ∈ examplesOf api T) (hx : ¬ ex.isCatchAllImplicit) :
+        ∃ v, jsonCompatObjDecode E env [] true (tyOf T) ex.value = .ok v ∧
+             jsonCompatObjEncode E env [] false (tyOf T) v = .ok ex.value        -- as JSON documents
+
+Proved: the reference-free ("flat") part over scalar members. Not modelled (covered by the direct oracle of
+harness/suites/defaults_examples.py on every label of every generated spec): references to other examples
+(so every struct- or union-typed member), lists and maps, Timestamp / Bytes, aliases as member types, structs
+with enumerated subtypes, members omitted for a caller class. -/
+
+/-- The example document the compiler computes for a struct (any inheritance chain) from a reference-free
+example over scalar fields — members written in the example, `null` members left out, defaults filled in, in
+`all_fields` order — is accepted by `json_compat_obj_decode(strict=True)`, and `json_compat_obj_encode` of the
+decoded instance gives back exactly the members of the document (in declaration order: a permutation).
+Hypotheses beyond acceptance by the compiler: the pattern law `hpat` (false of the real external calls: D12)
+and exact literal kinds `hexact` (`true` for an Int32 or `1` for a Float64 re-encode as a different JSON token). -/
+theorem example_roundtrip_partial (E : Ext) (C : CExt) (us : List CUnion) (env : Env) (cs : CStruct) (sd : StructDef)
+    (ex : List (String × ExVal))
+    (hwf : envWF env = true) (hchain : envWFX env = true) (hsub : cs.subtypes = none)
+    (hpat : ∀ p s, C.prefixMatch p s = true → E.patMatch p s = true)
+    (hsd : structDefOfC us cs = some sd) (henv : env.struct? cs.cls = some sd)
+    (hscalar : ∀ f ∈ cs.allFields, scalarTy f.ty = true)
+    (hpub : ∀ f ∈ cs.allFields, f.omitted = none)
+    (hnd : (cs.allFields.map (·.name)).Nodup)
+    (hdef : ∀ f ∈ cs.allFields, ∀ d, f.dflt = some d → ∃ lit, fieldDefault E C us f.ty lit = .ok d)
+    (hexact : ∀ f ∈ cs.allFields, (∀ l, exLookup f.name ex = some (.lit l) → exactKind f.ty l = true) ∧
+      (∀ d, exLookup f.name ex = none → f.dflt = some d → exactKind f.ty d = true))
+    (hadd : addStructExample E C us cs ex = .ok ()) :
+    ∃ kvs v kvs', structExampleDoc cs ex = some (.obj kvs) ∧
+      jsonCompatObjDecode E env [] true (.struct {} cs.cls) (.obj kvs) = .ok v ∧
+      jsonCompatObjEncode E env [] false (.struct {} cs.cls) v = .ok (.obj kvs') ∧ kvs'.Perm kvs :=
+  example_roundtrip_encode_partial E C us env cs sd ex hwf hchain hsub hpat hsd henv hscalar hpub hnd hdef hexact hadd
+
+/-- The same against the specification-level wire form (json_serializer.rst as a function), with the decoded
+instance shown valid and in normal form — no well-formedness assumption on the rest of the environment. -/
+theorem example_roundtrip_wire_partial (E : Ext) (C : CExt) (us : List CUnion) (env : Env) (cs : CStruct) (sd : StructDef)
+    (ex : List (String × ExVal))
+    (hpat : ∀ p s, C.prefixMatch p s = true → E.patMatch p s = true)
+    (hsd : structDefOfC us cs = some sd) (henv : env.struct? cs.cls = some sd)
+    (hscalar : ∀ f ∈ cs.allFields, scalarTy f.ty = true)
+    (hpub : ∀ f ∈ cs.allFields, f.omitted = none)
+    (hnd : (cs.allFields.map (·.name)).Nodup)
+    (hdef : ∀ f ∈ cs.allFields, ∀ d, f.dflt = some d → ∃ lit, fieldDefault E C us f.ty lit = .ok d)
+    (hexact : ∀ f ∈ cs.allFields, (∀ l, exLookup f.name ex = some (.lit l) → exactKind f.ty l = true) ∧
+      (∀ d, exLookup f.name ex = none → f.dflt = some d → exactKind f.ty d = true))
+    (hadd : addStructExample E C us cs ex = .ok ()) :
+    ∃ kvs slots, structExampleDoc cs ex = some (.obj kvs) ∧
+      decode E env [] true (.struct {} cs.cls) (.obj kvs) = .ok (.struct cs.cls slots) ∧
+      jsonCompatObjDecode E env [] true (.struct {} cs.cls) (.obj kvs) = .ok (.struct cs.cls slots) ∧
+      (∃ kvs', wire E env (.struct {} cs.cls) (.struct cs.cls slots) = .obj kvs' ∧ kvs'.Perm kvs) ∧
+      normalB env (.struct {} cs.cls) (.struct cs.cls slots) = true ∧
+      (cs.cls ∈ cs.chain.map (·.1) → validB E env (.struct {} cs.cls) (.struct cs.cls slots) = true) :=
+  IrCheck.example_roundtrip_partial E C us env cs sd ex hpat hsd henv hscalar hpub hnd hdef hexact hadd
+
+/-- Union examples with exactly one tag whose type is Void or scalar (the tag is not the catch-all): the
+computed document `{".tag": t}` / `{".tag": t, t: value}` decodes strictly and encodes back to itself. -/
+theorem example_union_roundtrip_partial (E : Ext) (C : CExt) (us : List CUnion) (env : Env) (cu : CUnion) (ud : UnionDef)
+    (tag : String) (v : ExVal) (t : CTag)
+    (hwf : envWF env = true) (hchain : envWFX env = true)
+    (hpat : ∀ p s, C.prefixMatch p s = true → E.patMatch p s = true)
+    (hud : unionDefOfC cu = some ud) (henv : env.union? cu.cls = some ud)
+    (hpub : ∀ t ∈ cu.allTags, t.omitted = none) (hnd : (cu.allTags.map (·.name)).Nodup)
+    (ht : cu.allTags.find? (·.name == tag) = some t)
+    (hty : t.ty = .void ∨ scalarTy t.ty = true)
+    (hca : some tag ≠ cu.catchAll) (htne : tag ≠ ".tag")
+    (hexact : scalarTy t.ty = true → ∀ l, v = .lit l → exactKind t.ty l = true)
+    (hadd : addUnionExample E C us cu [(tag, v)] = .ok ()) :
+    ∃ doc u, unionExampleDoc cu [(tag, v)] = some doc ∧
+      jsonCompatObjDecode E env [] true (.union {} cu.cls) doc = .ok u ∧
+      jsonCompatObjEncode E env [] false (.union {} cu.cls) u = .ok doc :=
+  example_union_roundtrip_encode_partial E C us env cu ud tag v t hwf hchain hpat hud henv hpub hnd ht hty hca htne hexact hadd
+
+/-- The class tables the theorems above speak of are the ones `envOfC` generates for the API. -/
+theorem example_env_generated {api : CApi} {env : Env} (h : envOfC api = some env) :
+    (∀ cs ∈ api.structs, (api.structs.map (·.cls)).Nodup →
+      ∃ sd, structDefOfC api.unions cs = some sd ∧ env.struct? cs.cls = some sd) ∧
+    (∀ cu ∈ api.unions, (api.unions.map (·.cls)).Nodup →
+      ∃ ud, unionDefOfC cu = some ud ∧ env.union? cu.cls = some ud) :=
+  ⟨fun cs hcs hnd => envOfC_struct h hnd hcs, fun cu hcu hnd => envOfC_union h hnd hcu⟩
+
+/-! ### non-vacuity and the two excluded shapes as witnesses
+
+`rtItem` (Lemmas/IrCheckExamples.lean): `struct Base { id Int64; note String? }`,
+`struct Item extends Base { flag Boolean = false; name String(pattern="[a-z]{2}"); score Float64; n UInt32? }`
+with the example `name = "ab"; id = 7; score = 2.5; note = null`. -/
+
+example : ∃ kvs v kvs', structExampleDoc rtItem rtEx = some (.obj kvs) ∧
+    jsonCompatObjDecode rtE rtApiEnv [] true (.struct {} rtItem.cls) (.obj kvs) = .ok v ∧
+    jsonCompatObjEncode rtE rtApiEnv [] false (.struct {} rtItem.cls) v = .ok (.obj kvs') ∧ kvs'.Perm kvs := by
+  obtain ⟨sd, hsd, henv⟩ := envOfC_struct rtApiEnv_eq (by decide) (cs := rtItem) (by simp [rtApi])
+  have hf : (rtItem.allFields.all fun f => scalarTy f.ty && f.omitted.isNone && dfltOK rtE rtC rtApi.unions f && exactOK rtEx f) = true := rfl
+  rw [List.all_eq_true] at hf
+  have hf' : ∀ f ∈ rtItem.allFields, scalarTy f.ty = true ∧ f.omitted = none ∧ dfltOK rtE rtC rtApi.unions f = true ∧ exactOK rtEx f = true := by
+    intro f h
+    have := hf f h
+    simp only [Bool.and_eq_true, Option.isNone_iff_eq_none] at this
+    exact ⟨this.1.1.1, this.1.1.2, this.1.2, this.2⟩
+  exact example_roundtrip_partial rtE rtC rtApi.unions rtApiEnv rtItem sd rtEx rtApiEnv_wf.2.1 rtApiEnv_wf.2.2 rfl
+    (fun _ _ h => h) hsd henv (fun f hfm => (hf' f hfm).1) (fun f hfm => (hf' f hfm).2.1) (by decide)
+    (fun f hfm => hdef_of_dfltOK (hf' f hfm).2.2.1) (fun f hfm => hexact_of_exactOK (hf' f hfm).2.2.2) rfl
+
+/-- The document is in `all_fields` order (required `id`, `name`, `score`, then the default of `flag`; no key
+for the null `note` and the absent `n`), the encoder answers in declaration order: a genuine permutation. -/
+example :
+    structExampleDoc rtItem rtEx = some (.obj [("id", .int 7), ("name", .str "ab"), ("score", .flt 4609434218613702656),
+      ("flag", .bool false)]) ∧
+    wire rtE rtEnv (.struct {} "ns.Item")
+        (.struct "ns.Item" [("id", .int 7), ("flag", .bool false), ("name", .str "ab"), ("score", .flt 4609434218613702656)]) =
+      .obj [("id", .int 7), ("flag", .bool false), ("name", .str "ab"), ("score", .flt 4609434218613702656)] :=
+  ⟨rfl, rfl⟩
+
+/-- `hexact` is needed: `k = true` for `k Int32` is accepted by the compiler and by the strict decoder, and the
+instance encodes as `{"k": 1}` — not the document. -/
+theorem example_bool_for_int_witness :
+    addStructExample rtE rtC [] rtB [("k", .lit (.bool true))] = .ok () ∧
+    structExampleDoc rtB [("k", .lit (.bool true))] = some (.obj [("k", .bool true)]) ∧
+    decode rtE rtBEnv [] true (.struct {} "ns.B") (.obj [("k", .bool true)]) = .ok (.struct "ns.B" [("k", .bool true)]) ∧
+    wire rtE rtBEnv (.struct {} "ns.B") (.struct "ns.B" [("k", .bool true)]) = .obj [("k", .int 1)] :=
+  ⟨rfl, rfl, rfl, rfl⟩
 
 end StoneVerif.C10
